@@ -491,3 +491,740 @@ Proof.
     destruct (Nat.eqb c r); [right; exact Hin | exact Hin].
   - destruct (Nat.eqb c r); [|discriminate]. inversion H; subst. exists u. split; [left; reflexivity | reflexivity].
 Qed.
+
+(* ================================================================== sorting: Python's sorted(key=offsets) *)
+Lemma insert_perm {A} (leb : A -> A -> bool) x : forall l, Permutation (insert leb x l) (x :: l).
+Proof.
+  induction l as [|y r IH]; [apply Permutation_refl|]. cbn [insert].
+  destruct (leb x y); [apply Permutation_refl|].
+  apply perm_trans with (y :: x :: r); [apply perm_skip; exact IH | apply perm_swap].
+Qed.
+
+Lemma isort_perm {A} (leb : A -> A -> bool) : forall l, Permutation (isort leb l) l.
+Proof.
+  induction l as [|x r IH]; [constructor|]. unfold isort in *. cbn [fold_right].
+  apply perm_trans with (x :: fold_right (insert leb) [] r); [apply insert_perm | apply perm_skip; exact IH].
+Qed.
+
+Definition leb_total {A} (leb : A -> A -> bool) : Prop := forall a b, leb a b = false -> leb b a = true.
+Definition sorted_by {A} (leb : A -> A -> bool) (l : list A) : Prop := Sorted (fun a b => leb a b = true) l.
+
+Lemma insert_sorted {A} (leb : A -> A -> bool) (T : leb_total leb) x : forall l,
+  sorted_by leb l -> sorted_by leb (insert leb x l).
+Proof.
+  unfold sorted_by. induction l as [|y r IH]; intro S; cbn [insert].
+  - constructor; constructor.
+  - destruct (leb x y) eqn:E.
+    + constructor; [exact S | constructor; exact E].
+    + inversion S as [|? ? Sr Hd]; subst. constructor; [apply IH; exact Sr|].
+      destruct r as [|z r']; cbn [insert].
+      * constructor. apply T. exact E.
+      * destruct (leb x z); constructor; [apply T; exact E | inversion Hd; assumption].
+Qed.
+
+Lemma isort_sorted {A} (leb : A -> A -> bool) (T : leb_total leb) : forall l, sorted_by leb (isort leb l).
+Proof.
+  induction l as [|x r IH]; [constructor|]. unfold isort in *. cbn [fold_right]. apply insert_sorted; assumption.
+Qed.
+
+Lemma lex_leb_total : leb_total lex_leb.
+Proof.
+  intro a. induction a as [|x a IH]; intros [|y b] H; cbn [lex_leb] in *; try discriminate; try reflexivity.
+  destruct (x <? y) eqn:E1; [discriminate|]. destruct (y <? x) eqn:E2; [reflexivity|]. apply IH. exact H.
+Qed.
+
+Lemma chunk_leb_total : leb_total chunk_leb.
+Proof. intros a b H. unfold chunk_leb in *. apply lex_leb_total. exact H. Qed.
+
+(* ================================================================== dicts as association lists *)
+Lemma memz_In p : forall l, memz p l = true <-> In p l.
+Proof.
+  induction l as [|x r IH]; cbn [memz In]; [split; [discriminate | tauto]|].
+  destruct (p =? x) eqn:E.
+  - apply Z.eqb_eq in E. subst. tauto.
+  - apply Z.eqb_neq in E. rewrite IH. split; [tauto|]. intros [H|H]; [congruence | exact H].
+Qed.
+
+Lemma lookup_dset p q e : forall m, lookup p (dset q e m) = if q =? p then Some e else lookup p m.
+Proof.
+  induction m as [|[k x] r IH]; cbn [dset lookup]; [reflexivity|].
+  destruct (k =? q) eqn:Ekq.
+  - apply Z.eqb_eq in Ekq. subst k. cbn [lookup]. destruct (q =? p); reflexivity.
+  - cbn [lookup]. rewrite IH. destruct (k =? p) eqn:Ekp; [|reflexivity].
+    apply Z.eqb_eq in Ekp. subst k. rewrite (Z.eqb_sym q p), Ekq. reflexivity.
+Qed.
+
+Lemma lookup_In p e : forall m, lookup p m = Some e -> In (p, e) m.
+Proof.
+  induction m as [|[k x] r IH]; cbn [lookup]; [discriminate|]. destruct (k =? p) eqn:E.
+  - intro H. inversion H; subst. apply Z.eqb_eq in E. subst. left. reflexivity.
+  - intro H. right. apply IH. exact H.
+Qed.
+
+Lemma lookup_none p : forall m, lookup p m = None <-> ~ In p (map fst m).
+Proof.
+  induction m as [|[k x] r IH]; cbn [lookup map fst In]; [tauto|]. destruct (k =? p) eqn:E.
+  - apply Z.eqb_eq in E. subst. split; [discriminate | tauto].
+  - apply Z.eqb_neq in E. rewrite IH. tauto.
+Qed.
+
+Lemma In_lookup p e : forall m, NoDup (map fst m) -> In (p, e) m -> lookup p m = Some e.
+Proof.
+  induction m as [|[k x] r IH]; intros ND H; [destruct H|]. cbn [map fst] in ND. inversion ND as [|? ? Hn ND']; subst.
+  cbn [lookup]. destruct H as [H|H].
+  - inversion H; subst. rewrite Z.eqb_refl. reflexivity.
+  - destruct (k =? p) eqn:E.
+    + apply Z.eqb_eq in E. subst k. exfalso. apply Hn. apply in_map_iff. exists (p, e). split; [reflexivity | exact H].
+    + apply IH; assumption.
+Qed.
+
+Lemma lookup_app p : forall a b, lookup p (a ++ b) = match lookup p a with Some e => Some e | None => lookup p b end.
+Proof.
+  induction a as [|[k x] r IH]; intro b; cbn [app lookup]; [reflexivity|]. destruct (k =? p); [reflexivity | apply IH].
+Qed.
+
+Lemma dset_In_source p e q x : forall m, In (q, x) (dset p e m) -> (q = p /\ x = e) \/ In (q, x) m.
+Proof.
+  induction m as [|[k y] r IH]; cbn [dset].
+  - intros [H|[]]. inversion H; subst. left. split; reflexivity.
+  - destruct (k =? p) eqn:E.
+    + apply Z.eqb_eq in E. subst k. intros [H|H]; [inversion H; subst; left; split; reflexivity | right; right; exact H].
+    + intros [H|H]; [right; left; exact H|]. destruct (IH H) as [H'|H']; [left; exact H' | right; right; exact H'].
+Qed.
+
+Lemma dset_keys_in p e k : forall m, In k (map fst (dset p e m)) <-> k = p \/ In k (map fst m).
+Proof.
+  induction m as [|[q x] r IH]; cbn [dset map fst In].
+  - split; [intros [H|[]]; left; congruence | intros [H|[]]; left; congruence].
+  - destruct (q =? p) eqn:E; cbn [map fst In].
+    + apply Z.eqb_eq in E. subst q. split; [intros [H|H]; [left; congruence | right; right; exact H] | intros [H|[H|H]]; [left; congruence | left; exact H | right; exact H]].
+    + rewrite IH. tauto.
+Qed.
+
+Lemma dset_nodup p e : forall m, NoDup (map fst m) -> NoDup (map fst (dset p e m)).
+Proof.
+  induction m as [|[q x] r IH]; intro ND; cbn [dset].
+  - cbn. constructor; [intros [] | constructor].
+  - cbn [map fst] in ND. inversion ND as [|? ? Hn ND']; subst. destruct (q =? p) eqn:E; cbn [map fst].
+    + constructor; assumption.
+    + constructor; [|apply IH; exact ND']. intro H. apply dset_keys_in in H. destruct H as [H|H]; [|exact (Hn H)].
+      subst q. rewrite Z.eqb_refl in E. discriminate.
+Qed.
+
+Lemma strip_In q x m : In (q, x) (strip_repl m) <-> In (q, x) m /\ is_repl x = false.
+Proof.
+  unfold strip_repl. rewrite filter_In. cbn [snd]. rewrite negb_true_iff. tauto.
+Qed.
+
+Lemma strip_idem m : strip_repl (strip_repl m) = strip_repl m.
+Proof.
+  unfold strip_repl. induction m as [|[q x] r IH]; [reflexivity|]. cbn [filter snd].
+  destruct (is_repl x) eqn:E; cbn [negb]; [exact IH|]. cbn [filter snd]. rewrite E. cbn [negb]. rewrite IH. reflexivity.
+Qed.
+
+Lemma strip_nodup m : NoDup (map fst m) -> NoDup (map fst (strip_repl m)).
+Proof.
+  unfold strip_repl. induction m as [|[q x] r IH]; intro ND; [constructor|]. cbn [map fst] in ND.
+  inversion ND as [|? ? Hn ND']; subst. cbn [filter snd]. destruct (negb (is_repl x)); [|apply IH; exact ND'].
+  cbn [map fst]. constructor; [|apply IH; exact ND']. intro H. apply Hn. apply in_map_iff in H.
+  destruct H as [[k y] [E H]]. cbn [fst] in E. subst k. apply filter_In in H. destruct H as [H _].
+  apply in_map_iff. exists (q, y). split; [reflexivity | exact H].
+Qed.
+
+(* replacing / adding a replicated entry where no private entry lives does not touch the private entries *)
+Lemma strip_dset_repl p e : forall m,
+  is_repl e = true -> (forall x, lookup p m = Some x -> is_repl x = true) ->
+  strip_repl (dset p e m) = strip_repl m.
+Proof.
+  unfold strip_repl. induction m as [|[q x] r IH]; intros He Hx; cbn [dset filter snd].
+  - rewrite He. reflexivity.
+  - cbn [lookup] in Hx. destruct (q =? p) eqn:E; cbn [filter snd].
+    + rewrite He. rewrite (Hx x eq_refl). reflexivity.
+    + rewrite IH by assumption. reflexivity.
+Qed.
+
+(* ================================================================== step 1: merged chunked entries on every rank *)
+Section FoldD.
+  Variable M : Z -> entry.
+  Hypothesis M_repl : forall p, is_repl (M p) = true.
+
+  Definition foldD (G : list Z) (m : manifest) : manifest :=
+    fold_left (fun cur p => dset p (M p) cur) G m.
+
+  Lemma foldD_lookup p : forall G m, lookup p (foldD G m) = if memz p G then Some (M p) else lookup p m.
+  Proof.
+    induction G as [|q G IH]; intro m; cbn [foldD fold_left memz]; [reflexivity|].
+    change (fold_left (fun cur p0 => dset p0 (M p0) cur) G (dset q (M q) m)) with (foldD G (dset q (M q) m)).
+    rewrite IH, lookup_dset. destruct (memz p G); [destruct (p =? q); reflexivity|].
+    rewrite (Z.eqb_sym q p). destruct (p =? q) eqn:E; [|reflexivity]. apply Z.eqb_eq in E. subst. reflexivity.
+  Qed.
+
+  Lemma foldD_strip : forall G m,
+    (forall p x, In p G -> lookup p m = Some x -> is_repl x = true) ->
+    strip_repl (foldD G m) = strip_repl m.
+  Proof.
+    induction G as [|q G IH]; intros m H; cbn [foldD fold_left]; [reflexivity|].
+    change (fold_left (fun cur p0 => dset p0 (M p0) cur) G (dset q (M q) m)) with (foldD G (dset q (M q) m)).
+    rewrite IH.
+    - apply strip_dset_repl; [apply M_repl|]. intros x Hx. apply (H q x); [left; reflexivity | exact Hx].
+    - intros p x Hp Hx. rewrite lookup_dset in Hx. destruct (q =? p) eqn:E.
+      + inversion Hx; subst. apply M_repl.
+      + apply (H p x); [right; exact Hp | exact Hx].
+  Qed.
+
+  Lemma foldD_nodup : forall G m, NoDup (map fst m) -> NoDup (map fst (foldD G m)).
+  Proof.
+    induction G as [|q G IH]; intros m ND; cbn [foldD fold_left]; [exact ND|].
+    apply IH. apply dset_nodup. exact ND.
+  Qed.
+
+  Lemma foldD_In_source q x : forall G m, In (q, x) (foldD G m) -> (In q G /\ x = M q) \/ In (q, x) m.
+  Proof.
+    induction G as [|p G IH]; intros m H; cbn [foldD fold_left] in H; [right; exact H|].
+    apply IH in H. destruct H as [[H1 H2]|H]; [left; split; [right; exact H1 | exact H2]|].
+    apply dset_In_source in H. destruct H as [[H1 H2]|H]; [left; subst; split; [left; reflexivity | reflexivity] | right; exact H].
+  Qed.
+
+  Lemma fold_map_commute : forall G (l : list manifest),
+    fold_left (fun cur p => map (dset p (M p)) cur) G l = map (foldD G) l.
+  Proof.
+    induction G as [|q G IH]; intro l; cbn [fold_left foldD].
+    - rewrite map_id. reflexivity.
+    - rewrite IH, map_map. reflexivity.
+  Qed.
+End FoldD.
+
+Lemma merged_repl ms p : is_repl (merged_entry ms p) = true.
+Proof. reflexivity. Qed.
+
+Lemma step1_eq ms : step1 ms = map (foldD (merged_entry ms) (group_paths ms)) ms.
+Proof. unfold step1. apply fold_map_commute. Qed.
+
+Lemma dedupz_In x : forall l seen, In x (dedupz l seen) <-> In x l /\ ~ In x seen.
+Proof.
+  induction l as [|y r IH]; intro seen; cbn [dedupz In]; [tauto|].
+  destruct (memz y seen) eqn:E.
+  - apply memz_In in E. rewrite IH. split; [tauto|]. intros [[H|H] Hn]; [subst; tauto | tauto].
+  - assert (Hn : ~ In y seen) by (intro H; apply memz_In in H; congruence).
+    cbn [In]. rewrite IH. cbn [In]. split.
+    + intros [H|[H1 H2]]; [subst; tauto | tauto].
+    + intros [[H|H] Hs]; [left; exact H|]. destruct (Z.eq_dec y x) as [E'|E']; [left; exact E' | right; tauto].
+Qed.
+
+Lemma group_paths_In ms p :
+  In p (group_paths ms) <-> exists m e, In m ms /\ In (p, e) m /\ is_repl_chunked e = true.
+Proof.
+  unfold group_paths. rewrite dedupz_In, in_flat_map. split.
+  - intros [[m [Hm H]] _]. apply in_map_iff in H. destruct H as [[q e] [E H]]. cbn [fst] in E. subst q.
+    apply filter_In in H. destruct H as [H1 H2]. exists m, e. tauto.
+  - intros [m [e [Hm [H1 H2]]]]. split; [|tauto]. exists m. split; [exact Hm|]. apply in_map_iff.
+    exists (p, e). split; [reflexivity|]. apply filter_In. tauto.
+Qed.
+
+Lemma is_repl_chunked_repl e : is_repl_chunked e = true -> is_repl e = true.
+Proof. destruct e; cbn; [tauto | discriminate]. Qed.
+
+(* ================================================================== collection of the replicated entries *)
+Lemma list_eqb_Z_eq : forall a b, list_eqb Z.eqb a b = true -> a = b.
+Proof.
+  induction a as [|x a IH]; intros [|y b] H; cbn [list_eqb] in H; try discriminate; [reflexivity|].
+  apply andb_true_iff in H. destruct H as [H1 H2]. apply Z.eqb_eq in H1. subst. f_equal. apply IH. exact H2.
+Qed.
+
+Lemma list_eqb_Z_refl : forall a, list_eqb Z.eqb a a = true.
+Proof. induction a as [|x a IH]; [reflexivity|]. cbn [list_eqb]. rewrite Z.eqb_refl, IH. reflexivity. Qed.
+
+Lemma chunk_eqb_eq a b : chunk_eqb a b = true -> a = b.
+Proof.
+  destruct a as [oa ia]; destruct b as [ob ib]. unfold chunk_eqb. cbn [fst snd]. intro H.
+  apply andb_true_iff in H. destruct H as [H1 H2]. apply list_eqb_Z_eq in H1. apply Z.eqb_eq in H2. subst. reflexivity.
+Qed.
+
+Lemma chunk_eqb_refl a : chunk_eqb a a = true.
+Proof. destruct a. unfold chunk_eqb. cbn [fst snd]. rewrite list_eqb_Z_refl, Z.eqb_refl. reflexivity. Qed.
+
+Lemma chunks_eqb_eq : forall a b, list_eqb chunk_eqb a b = true -> a = b.
+Proof.
+  induction a as [|x a IH]; intros [|y b] H; cbn [list_eqb] in H; try discriminate; [reflexivity|].
+  apply andb_true_iff in H. destruct H as [H1 H2]. apply chunk_eqb_eq in H1. subst. f_equal. apply IH. exact H2.
+Qed.
+
+Lemma chunks_eqb_refl : forall a, list_eqb chunk_eqb a a = true.
+Proof. induction a as [|x a IH]; [reflexivity|]. cbn [list_eqb]. rewrite chunk_eqb_refl, IH. reflexivity. Qed.
+
+Lemma entry_eqb_eq a b : entry_eqb a b = true -> a = b.
+Proof.
+  destruct a as [r m cs|r i]; destruct b as [r' m' cs'|r' i']; cbn [entry_eqb]; try discriminate; intro H.
+  - apply andb_true_iff in H. destruct H as [H H3]. apply andb_true_iff in H. destruct H as [H1 H2].
+    apply eqb_prop in H1. apply Z.eqb_eq in H2. apply chunks_eqb_eq in H3. subst. reflexivity.
+  - apply andb_true_iff in H. destruct H as [H1 H2]. apply eqb_prop in H1. apply Z.eqb_eq in H2. subst. reflexivity.
+Qed.
+
+Lemma entry_eqb_refl a : entry_eqb a a = true.
+Proof.
+  destruct a as [r m cs|r i]; cbn [entry_eqb].
+  - rewrite eqb_reflx, Z.eqb_refl, chunks_eqb_refl. reflexivity.
+  - rewrite eqb_reflx, Z.eqb_refl. reflexivity.
+Qed.
+
+Lemma collect_keeps p e : forall kvs acc out,
+  collect kvs acc = Some out -> lookup p acc = Some e -> lookup p out = Some e.
+Proof.
+  induction kvs as [|[q x] r IH]; intros acc out H Hl; cbn [collect] in H; [inversion H; subst; exact Hl|].
+  destruct (is_repl x); [|exact (IH acc out H Hl)].
+  destruct (lookup q acc) as [e'|] eqn:E.
+  - destruct (entry_eqb e' x); [exact (IH acc out H Hl) | discriminate].
+  - apply (IH (acc ++ [(q, x)]) out H). rewrite lookup_app, Hl. reflexivity.
+Qed.
+
+Lemma collect_agrees p e : forall kvs acc out,
+  collect kvs acc = Some out -> In (p, e) kvs -> is_repl e = true -> lookup p out = Some e.
+Proof.
+  induction kvs as [|[q x] r IH]; intros acc out H Hin He; [destruct Hin|]. cbn [collect] in H.
+  destruct Hin as [Hin|Hin].
+  - inversion Hin; subst q x. rewrite He in H. destruct (lookup p acc) as [e'|] eqn:E.
+    + destruct (entry_eqb e' e) eqn:Eq; [|discriminate]. apply entry_eqb_eq in Eq. subst e'.
+      exact (collect_keeps p e r acc out H E).
+    + apply (collect_keeps p e r (acc ++ [(p, e)]) out H). rewrite lookup_app, E. cbn [lookup]. rewrite Z.eqb_refl. reflexivity.
+  - destruct (is_repl x); [|exact (IH acc out H Hin He)].
+    destruct (lookup q acc) as [e'|] eqn:E.
+    + destruct (entry_eqb e' x); [exact (IH acc out H Hin He) | discriminate].
+    + exact (IH _ out H Hin He).
+Qed.
+
+Lemma collect_source q x : forall kvs acc out,
+  collect kvs acc = Some out -> In (q, x) out -> In (q, x) acc \/ (In (q, x) kvs /\ is_repl x = true).
+Proof.
+  induction kvs as [|[k y] r IH]; intros acc out H Hin; cbn [collect] in H; [inversion H; subst; left; exact Hin|].
+  destruct (is_repl y) eqn:Ey.
+  - destruct (lookup k acc) as [e'|] eqn:E.
+    + destruct (entry_eqb e' y); [|discriminate]. destruct (IH acc out H Hin) as [H'|[H' H'']]; [left; exact H' | right; split; [right; exact H' | exact H'']].
+    + destruct (IH _ out H Hin) as [H'|[H' H'']].
+      * apply in_app_or in H'. destruct H' as [H'|[H'|[]]]; [left; exact H'|]. inversion H'; subst. right. split; [left; reflexivity | exact Ey].
+      * right. split; [right; exact H' | exact H''].
+  - destruct (IH acc out H Hin) as [H'|[H' H'']]; [left; exact H' | right; split; [right; exact H' | exact H'']].
+Qed.
+
+Lemma nodup_snoc {A} (x : A) : forall l, NoDup l -> ~ In x l -> NoDup (l ++ [x]).
+Proof.
+  induction l as [|y l IH]; intros ND Hn; cbn [app]; [constructor; [intros [] | constructor]|].
+  inversion ND as [|? ? Hy ND']; subst. constructor.
+  - intro H. apply in_app_or in H. destruct H as [H|[H|[]]]; [exact (Hy H) | subst; apply Hn; left; reflexivity].
+  - apply IH; [exact ND' | intro H; apply Hn; right; exact H].
+Qed.
+
+Lemma collect_nodup : forall kvs acc out,
+  NoDup (map fst acc) -> collect kvs acc = Some out -> NoDup (map fst out).
+Proof.
+  induction kvs as [|[k y] r IH]; intros acc out ND H; cbn [collect] in H; [inversion H; subst; exact ND|].
+  destruct (is_repl y); [|exact (IH acc out ND H)].
+  destruct (lookup k acc) as [e'|] eqn:E.
+  - destruct (entry_eqb e' y); [exact (IH acc out ND H) | discriminate].
+  - apply (IH _ out) in H; [exact H|]. rewrite map_app. cbn [map fst].
+    apply lookup_none in E. apply nodup_snoc; assumption.
+Qed.
+
+(* ================================================================== re-insertion under rank 0 *)
+Lemma lookup_add_reps p : forall reps m, NoDup (map fst reps) ->
+  lookup p (add_reps reps m) = match lookup p reps with Some e => Some e | None => lookup p m end.
+Proof.
+  unfold add_reps. induction reps as [|[q e] r IH]; intros m ND; cbn [fold_left lookup fst snd]; [reflexivity|].
+  cbn [map fst] in ND. inversion ND as [|? ? Hn ND']; subst. rewrite IH by exact ND'. rewrite lookup_dset.
+  destruct (q =? p) eqn:E; [|reflexivity]. apply Z.eqb_eq in E. subst q.
+  apply lookup_none in Hn. rewrite Hn. reflexivity.
+Qed.
+
+Lemma strip_add_reps : forall reps m,
+  (forall q e, In (q, e) reps -> is_repl e = true) ->
+  (forall q e x, In (q, e) reps -> lookup q m = Some x -> is_repl x = true) ->
+  strip_repl (add_reps reps m) = strip_repl m.
+Proof.
+  unfold add_reps. induction reps as [|[q e] r IH]; intros m H1 H2; cbn [fold_left fst snd]; [reflexivity|].
+  rewrite IH.
+  - apply strip_dset_repl; [apply (H1 q e); left; reflexivity|]. intros x Hx. apply (H2 q e x); [left; reflexivity | exact Hx].
+  - intros q' e' H. apply (H1 q' e'). right. exact H.
+  - intros q' e' x H Hx. rewrite lookup_dset in Hx. destruct (q =? q') eqn:E.
+    + injection Hx as Hxe. rewrite <- Hxe. apply (H1 q e). left. reflexivity.
+    + apply (H2 q' e' x); [right; exact H | exact Hx].
+Qed.
+
+Lemma add_reps_nodup : forall reps m, NoDup (map fst m) -> NoDup (map fst (add_reps reps m)).
+Proof.
+  unfold add_reps. induction reps as [|[q e] r IH]; intros m ND; cbn [fold_left fst snd]; [exact ND|].
+  apply IH. apply dset_nodup. exact ND.
+Qed.
+
+Lemma map_ranks_length f : forall ms k, length (map_ranks f k ms) = length ms.
+Proof. induction ms as [|m t IH]; intro k; cbn [map_ranks length]; [reflexivity|]. rewrite IH. reflexivity. Qed.
+
+Lemma map_ranks_nth f : forall ms k r, (r < length ms)%nat ->
+  nth r (map_ranks f k ms) [] = f (k + r)%nat (nth r ms []).
+Proof.
+  induction ms as [|m t IH]; intros k r H; cbn [length] in H; [lia|]. cbn [map_ranks].
+  destruct r as [|r]; cbn [nth]; [replace (k + 0)%nat with k by lia; reflexivity|].
+  rewrite IH by lia. f_equal. lia.
+Qed.
+
+(* ================================================================== consolidation: the theorem *)
+Definition keys_distinct (ms : list manifest) : Prop := Forall (fun m => NoDup (map fst m)) ms.
+(* a path is replicated on every rank where it appears, or on none *)
+Definition consistent (ms : list manifest) : Prop :=
+  forall m m' p e e', In m ms -> In m' ms -> In (p, e) m -> In (p, e') m' -> is_repl e = is_repl e'.
+Definition all_repl_chunks (ms : list manifest) (p : Z) : list chunk := flat_map (repl_chunks_at p) ms.
+
+Lemma consolidate_complete : forall ms ms',
+  ms <> [] -> keys_distinct ms -> consistent ms -> consolidate ms = Some ms' ->
+  length ms' = length ms /\
+  (forall r, strip_repl (nth r ms' []) = strip_repl (nth r ms [])) /\
+  (forall r, (1 <= r)%nat -> nth r ms' [] = strip_repl (nth r ms [])) /\
+  NoDup (map fst (nth 0 ms' [])) /\
+  (forall p, In p (group_paths ms) ->
+     (exists meta cs, lookup p (nth 0 ms' []) = Some (EChunked true meta cs) /\
+                      Permutation cs (all_repl_chunks ms p) /\ sorted_by chunk_leb cs) /\
+     (forall r, (1 <= r)%nat -> ~ In p (map fst (nth r ms' [])))) /\
+  (forall m p e, In m ms -> In (p, e) m -> is_repl e = true -> ~ In p (group_paths ms) ->
+     lookup p (nth 0 ms' []) = Some e).
+Proof.
+  intros ms ms' Hne KD CO H.
+  destruct ms as [|m0 rest] eqn:Ems; [congruence|]. rewrite <- Ems in *.
+  unfold consolidate, consolidate_with in H. rewrite dedup_default_on in H. rewrite step1_eq in H.
+  set (M := merged_entry ms) in *. set (G := group_paths ms) in *. set (D := foldD M G) in *.
+  destruct (collect (concat (map D ms)) []) as [reps|] eqn:EC; [|discriminate].
+  injection H as H.
+  assert (Mrepl : forall p, is_repl (M p) = true) by (intro; reflexivity).
+  (* group paths never hold a private entry *)
+  assert (Gpriv : forall m, In m ms -> forall p x, In p G -> lookup p m = Some x -> is_repl x = true).
+  { intros m Hm p x Hp Hx. apply group_paths_In in Hp. destruct Hp as [mg [eg [Hmg [Hin Hrc]]]].
+    apply lookup_In in Hx. rewrite (CO m mg p x eg Hm Hmg Hx Hin). apply is_repl_chunked_repl. exact Hrc. }
+  assert (Dstrip : forall m, In m ms -> strip_repl (D m) = strip_repl m).
+  { intros m Hm. apply foldD_strip; [exact Mrepl | exact (Gpriv m Hm)]. }
+  assert (RepsND : NoDup (map fst reps)) by (apply (collect_nodup (concat (map D ms)) [] reps); [constructor | exact EC]).
+  (* where the collected entries come from *)
+  assert (RepsSrc : forall q e, In (q, e) reps -> is_repl e = true /\
+            ((In q G /\ e = M q) \/ exists m, In m ms /\ In (q, e) m)).
+  { intros q e Hin. destruct (collect_source q e _ [] reps EC Hin) as [[]|[Hc He]]. split; [exact He|].
+    apply in_concat in Hc. destruct Hc as [l [Hl Hq]]. apply in_map_iff in Hl. destruct Hl as [m [El Hm]]. subst l.
+    destruct (foldD_In_source M q e G m Hq) as [Hs|Hs]; [left; exact Hs | right; exists m; tauto]. }
+  (* a collected entry never sits on a private key of any rank *)
+  assert (RepsPriv : forall m, In m ms -> forall q e x, In (q, e) reps -> lookup q (strip_repl (D m)) = Some x -> is_repl x = true).
+  { intros m Hm q e x Hin Hx. apply lookup_In in Hx. rewrite (Dstrip m Hm) in Hx. apply strip_In in Hx.
+    destruct Hx as [Hx Hpriv]. destruct (RepsSrc q e Hin) as [He [[Hg _]|[m2 [Hm2 Hin2]]]].
+    - apply group_paths_In in Hg. destruct Hg as [mg [eg [Hmg [Hing Hrc]]]].
+      rewrite (CO m mg q x eg Hm Hmg Hx Hing). apply is_repl_chunked_repl. exact Hrc.
+    - rewrite (CO m m2 q x e Hm Hm2 Hx Hin2). exact He. }
+  assert (Hm0 : In m0 ms) by (rewrite Ems; left; reflexivity).
+  assert (Hlen : length ms' = length ms).
+  { rewrite <- H. rewrite map_ranks_length, map_length. reflexivity. }
+  assert (Hnth : forall r, (r < length ms)%nat ->
+            nth r ms' [] = if gets_reps true r then add_reps reps (strip_repl (D (nth r ms []))) else strip_repl (D (nth r ms []))).
+  { intros r Hr. rewrite <- H. rewrite map_ranks_nth by (rewrite map_length; exact Hr). cbn [Nat.add].
+    replace (nth r (map D ms) []) with (D (nth r ms [])); [reflexivity|].
+    rewrite <- (map_nth D ms [] r). apply nth_indep. rewrite map_length. exact Hr. }
+  assert (Hnth0 : nth 0 ms' [] = add_reps reps (strip_repl (D m0))).
+  { rewrite Hnth by (rewrite Ems; cbn [length]; lia). rewrite Ems. reflexivity. }
+  assert (HnthS : forall r, (1 <= r)%nat -> nth r ms' [] = strip_repl (nth r ms [])).
+  { intros r Hr. destruct (Nat.lt_ge_cases r (length ms)) as [Hlt|Hge].
+    - rewrite Hnth by exact Hlt. destruct r as [|r]; [lia|]. cbn [gets_reps Nat.eqb negb andb].
+      apply Dstrip. apply nth_In. exact Hlt.
+    - rewrite !nth_overflow by lia. reflexivity. }
+  assert (Hlook0 : forall p, lookup p (nth 0 ms' []) =
+                     match lookup p reps with Some e => Some e | None => lookup p (strip_repl (D m0)) end).
+  { intro p. rewrite Hnth0. apply lookup_add_reps. exact RepsND. }
+  split; [exact Hlen|]. split; [|split; [exact HnthS|split; [|split]]].
+  - (* private entries untouched *)
+    intro r. destruct r as [|r].
+    + rewrite Hnth0. replace (nth 0 ms []) with m0 by (rewrite Ems; reflexivity). rewrite strip_add_reps.
+      * rewrite strip_idem. apply Dstrip. exact Hm0.
+      * intros q e Hin. exact (proj1 (RepsSrc q e Hin)).
+      * intros q e x Hin Hx. exact (RepsPriv m0 Hm0 q e x Hin Hx).
+    + rewrite HnthS by lia. apply strip_idem.
+  - (* keys of rank 0 stay distinct *)
+    rewrite Hnth0. apply add_reps_nodup. apply strip_nodup. apply foldD_nodup.
+    unfold keys_distinct in KD. rewrite Forall_forall in KD. exact (KD m0 Hm0).
+  - (* merged chunked entries *)
+    intros p Hp. split.
+    + assert (HinC : In (p, M p) (concat (map D ms))).
+      { apply in_concat. exists (D m0). split; [apply in_map; exact Hm0|]. apply lookup_In.
+        unfold D. rewrite foldD_lookup by exact Mrepl. assert (memz p G = true) as -> by (apply memz_In; exact Hp). reflexivity. }
+      pose proof (collect_agrees p (M p) _ [] reps EC HinC (Mrepl p)) as HL.
+      unfold M, merged_entry in HL. rewrite merge_chunks_eq in HL. unfold all_repl_chunks.
+      eexists. eexists. split; [rewrite Hlook0, HL; reflexivity|]. split.
+      * apply isort_perm.
+      * apply isort_sorted. exact chunk_leb_total.
+    + intros r Hr Hin. rewrite (HnthS r Hr) in Hin. apply in_map_iff in Hin. destruct Hin as [[q x] [E Hin]].
+      cbn [fst] in E. subst q. apply strip_In in Hin. destruct Hin as [Hin Hpriv].
+      destruct (Nat.lt_ge_cases r (length ms)) as [Hlt|Hge]; [|rewrite nth_overflow in Hin by lia; destruct Hin].
+      assert (Hmr : In (nth r ms []) ms) by (apply nth_In; exact Hlt).
+      apply group_paths_In in Hp. destruct Hp as [mg [eg [Hmg [Hing Hrc]]]].
+      rewrite (CO _ mg p x eg Hmr Hmg Hin Hing) in Hpriv. rewrite (is_repl_chunked_repl eg Hrc) in Hpriv. discriminate.
+  - (* every other replicated entry ends under rank 0 *)
+    intros m p e Hm Hin He Hng.
+    assert (KDm : NoDup (map fst m)) by (unfold keys_distinct in KD; rewrite Forall_forall in KD; exact (KD m Hm)).
+    assert (HinC : In (p, e) (concat (map D ms))).
+    { apply in_concat. exists (D m). split; [apply in_map; exact Hm|]. apply lookup_In.
+      unfold D. rewrite foldD_lookup by exact Mrepl.
+      assert (memz p G = false) as -> by (destruct (memz p G) eqn:E; [apply memz_In in E; contradiction | reflexivity]).
+      apply In_lookup; assumption. }
+    rewrite Hlook0, (collect_agrees p e _ [] reps EC HinC He). reflexivity.
+Qed.
+
+(* ================================================================== _calculate_replicated_entries *)
+Lemma countz_cons p q l : countz p (q :: l) = (if q =? p then 1 else 0) + countz p l.
+Proof. unfold countz. cbn [fold_right]. destruct (q =? p); lia. Qed.
+
+Lemma countz_app p : forall a b, countz p (a ++ b) = countz p a + countz p b.
+Proof. induction a as [|x a IH]; intro b; [reflexivity|]. cbn [app]. rewrite !countz_cons, IH. lia. Qed.
+
+Lemma countz_notin p : forall l, ~ In p l -> countz p l = 0.
+Proof.
+  induction l as [|x l IH]; intro H; [reflexivity|]. rewrite countz_cons, IH by (intro; apply H; right; assumption).
+  destruct (x =? p) eqn:E; [|reflexivity]. apply Z.eqb_eq in E. exfalso. apply H. left. exact E.
+Qed.
+
+Lemma countz_nodup p : forall l, NoDup l -> countz p l = if memz p l then 1 else 0.
+Proof.
+  induction l as [|x l IH]; intro ND; [reflexivity|]. inversion ND as [|? ? Hn ND']; subst.
+  rewrite countz_cons. cbn [memz]. rewrite (Z.eqb_sym p x). destruct (x =? p) eqn:E.
+  - apply Z.eqb_eq in E. subst. rewrite countz_notin by exact Hn. reflexivity.
+  - rewrite IH by exact ND'. lia.
+Qed.
+
+Lemma count_all_iff p : forall lists, Forall (fun l => NoDup l) lists ->
+  0 <= countz p (concat lists) <= zlen lists /\
+  (countz p (concat lists) = zlen lists <-> forall l, In l lists -> In p l).
+Proof.
+  induction lists as [|l t IH]; intro F.
+  - cbn. split; [lia|]. split; [intros _ l []|reflexivity].
+  - inversion F as [|? ? NDl Ft]; subst. destruct (IH Ft) as [Hb Hi]. cbn [concat]. rewrite countz_app.
+    unfold zlen in *. cbn [length]. rewrite Nat2Z.inj_succ. rewrite (countz_nodup p l NDl).
+    destruct (memz p l) eqn:E.
+    + apply memz_In in E. split; [lia|]. split.
+      * intros H l' [H'|H']; [subst; exact E|]. apply Hi; [lia | exact H'].
+      * intro H. assert (countz p (concat t) = Z.of_nat (length t)) by (apply Hi; intros l' Hl'; apply H; right; exact Hl'). lia.
+    + split; [lia|]. split; [lia|]. intro H. exfalso. assert (In p l) by (apply H; left; reflexivity).
+      apply memz_In in H0. congruence.
+Qed.
+
+Lemma rp_filter_iff p lists : Forall (fun l => NoDup l) lists ->
+  (In p (rp_filter lists) <-> lists <> [] /\ forall l, In l lists -> In p l).
+Proof.
+  intro F. destruct lists as [|l0 t]; [cbn; split; [intros [] | intros [H _]; congruence]|].
+  unfold rp_filter. rewrite filter_In, count_test_iff. destruct (count_all_iff p (l0 :: t) F) as [_ Hi]. rewrite Hi. split.
+  - intros [_ H]. split; [discriminate | exact H].
+  - intros [_ H]. split; [apply H; left; reflexivity | exact H].
+Qed.
+
+Lemma rp_matched_iff fm globs sharded keys p :
+  In p (rp_matched fm globs sharded keys) <->
+  In p keys /\ (exists g, In g globs /\ fm p g = true) /\ sharded p = false.
+Proof.
+  unfold rp_matched. rewrite filter_In, andb_true_iff, existsb_exists, negb_true_iff. tauto.
+Qed.
+
+Lemma replicated_paths_iff fm globs (ranks : list (list Z * (Z -> bool))) p :
+  Forall (fun ks => NoDup (fst ks)) ranks ->
+  (In p (replicated_paths fm globs ranks) <->
+   ranks <> [] /\ forall ks, In ks ranks ->
+     In p (fst ks) /\ (exists g, In g globs /\ fm p g = true) /\ snd ks p = false).
+Proof.
+  intro F. unfold replicated_paths. rewrite rp_filter_iff.
+  - split.
+    + intros [Hne H]. split; [intro E; apply Hne; rewrite E; reflexivity|]. intros ks Hks.
+      apply rp_matched_iff. apply H. apply in_map_iff. exists ks. split; [reflexivity | exact Hks].
+    + intros [Hne H]. split; [intro E; apply Hne; destruct ranks; [reflexivity | discriminate]|].
+      intros l Hl. apply in_map_iff in Hl. destruct Hl as [ks [E Hks]]. subst l. apply rp_matched_iff. apply H. exact Hks.
+  - apply Forall_forall. intros l Hl. apply in_map_iff in Hl. destruct Hl as [ks [E Hks]]. subst l.
+    unfold rp_matched. apply NoDup_filter. rewrite Forall_forall in F. exact (F ks Hks).
+Qed.
+(* ================================================================== rank-local selection keeps exactly the assigned chunks *)
+Definition chunks_at (p : Z) (m : manifest) : list chunk :=
+  match lookup p m with Some (EChunked _ _ cs) => cs | _ => [] end.
+Definition pick (cs : list chunk) (i : Z) : chunk := nth (Z.to_nat i) cs ([], -1).
+Definition idxs_of (p : Z) (ps : list (Z * Z)) : list Z := map snd (filter (fun pi => fst pi =? p) ps).
+
+Lemma chunks_at_dset_same p e m : chunks_at p (dset p e m) = match e with EChunked _ _ cs => cs | _ => [] end.
+Proof. unfold chunks_at. rewrite lookup_dset, Z.eqb_refl. reflexivity. Qed.
+
+Lemma chunks_at_dset_other p q e m : (q =? p) = false -> chunks_at p (dset q e m) = chunks_at p m.
+Proof. intro H. unfold chunks_at. rewrite lookup_dset, H. reflexivity. Qed.
+
+Lemma sel_step_chunks entries p rp meta cs st q i :
+  lookup p entries = Some (EChunked rp meta cs) ->
+  chunks_at p (fst (sel_step entries st (q, i))) =
+  if q =? p then chunks_at p (fst st) ++ [pick cs i] else chunks_at p (fst st).
+Proof.
+  intro He. unfold sel_step. cbn [fst snd]. destruct (q =? p) eqn:E.
+  - apply Z.eqb_eq in E. subst q. rewrite He. cbn [fst].
+    unfold chunks_at at 2. destruct (lookup p (fst st)) as [[r m cs'|r j]|]; rewrite chunks_at_dset_same; reflexivity.
+  - destruct (lookup q entries) as [[r m cs'|r j]|]; cbn [fst]; [|apply chunks_at_dset_other; exact E|reflexivity].
+    destruct (lookup q (fst st)) as [[r2 m2 cs2|r2 j2]|]; apply chunks_at_dset_other; exact E.
+Qed.
+
+Lemma select_fold_chunks entries p rp meta cs :
+  lookup p entries = Some (EChunked rp meta cs) -> forall ps st,
+  chunks_at p (fst (fold_left (sel_step entries) ps st)) = chunks_at p (fst st) ++ map (pick cs) (idxs_of p ps).
+Proof.
+  intro He. induction ps as [|[q i] ps IH]; intro st; cbn [fold_left].
+  - unfold idxs_of. cbn. rewrite app_nil_r. reflexivity.
+  - rewrite IH, (sel_step_chunks entries p rp meta cs st q i He). unfold idxs_of. cbn [filter fst].
+    destruct (q =? p); [cbn [map snd]; rewrite <- app_assoc; reflexivity | reflexivity].
+Qed.
+
+Lemma selected_chunks_eq entries rl p rp meta cs :
+  lookup p entries = Some (EChunked rp meta cs) ->
+  selected_chunks entries rl p = map (pick cs) (idxs_of p (sorted_pairs rl)).
+Proof.
+  intro He. change (selected_chunks entries rl p) with (chunks_at p (fst (select entries rl))).
+  unfold select. rewrite (select_fold_chunks entries p rp meta cs He). reflexivity.
+Qed.
+
+Lemma perm_filter {A} (f : A -> bool) : forall l l', Permutation l l' -> Permutation (filter f l) (filter f l').
+Proof.
+  induction 1 as [|x l l' _ IH|x y l|l l' l'' _ IH1 _ IH2]; cbn [filter].
+  - constructor.
+  - destruct (f x); [apply perm_skip|]; exact IH.
+  - destruct (f x); destruct (f y); try apply Permutation_refl. apply perm_swap.
+  - exact (perm_trans IH1 IH2).
+Qed.
+
+Lemma perm_flat_map {A B} (f g : A -> list B) : forall l,
+  (forall x, Permutation (f x) (g x)) -> Permutation (flat_map f l) (flat_map g l).
+Proof.
+  intros l H. induction l as [|x l IH]; [constructor|]. cbn [flat_map]. apply Permutation_app; [apply H | exact IH].
+Qed.
+
+Lemma idxs_of_pairs p : forall rl,
+  idxs_of p (map (fun l => (l_path l, l_idx l)) rl) = map l_idx (filter (fun l => l_path l =? p) rl).
+Proof.
+  unfold idxs_of. induction rl as [|l rl IH]; [reflexivity|]. cbn [map filter fst].
+  destruct (l_path l =? p); [cbn [map snd]; rewrite IH; reflexivity | exact IH].
+Qed.
+
+Lemma idxs_sorted_perm p rl :
+  Permutation (idxs_of p (sorted_pairs rl)) (map l_idx (filter (fun l => l_path l =? p) rl)).
+Proof.
+  rewrite <- idxs_of_pairs. unfold idxs_of, sorted_pairs. apply Permutation_map. apply perm_filter. apply isort_perm.
+Qed.
+
+Lemma flat_map_filter_concat {A R} (h : R -> list A) (f : A -> bool) (g : A -> Z) : forall (L : list R),
+  flat_map (fun r => map g (filter f (h r))) L = map g (filter f (concat (map h L))).
+Proof.
+  induction L as [|r L IH]; [reflexivity|]. cbn [flat_map map concat]. rewrite IH.
+  rewrite <- map_app. f_equal. clear IH. induction (h r) as [|x l IHl]; [reflexivity|]. cbn [filter app].
+  destruct (f x); [cbn [app]; rewrite IHl; reflexivity | exact IHl].
+Qed.
+
+Lemma map_nth_seq {A} (d : A) : forall l, map (fun i => nth i l d) (seq 0 (length l)) = l.
+Proof.
+  induction l as [|x l IH]; [reflexivity|]. cbn [length seq map nth]. f_equal.
+  rewrite <- seq_shift, map_map. exact IH.
+Qed.
+
+Lemma selected_chunks_complete sizes items ord entries p rp meta cs :
+  sizes <> [] -> Permutation ord (partitionables items) ->
+  lookup p entries = Some (EChunked rp meta cs) ->
+  map l_idx (filter (fun l => l_path l =? p) (all_loads items)) = map Z.of_nat (seq 0 (length cs)) ->
+  Permutation
+    (flat_map (fun r => selected_chunks entries (rank_loads (snd (partition sizes items ord)) r) p) (seq 0 (length sizes)))
+    cs.
+Proof.
+  intros Hne HP He Hidx. set (asg := snd (partition sizes items ord)).
+  rewrite (flat_map_ext _ (fun r => map (pick cs) (idxs_of p (sorted_pairs (rank_loads asg r))))).
+  2:{ intro r. apply (selected_chunks_eq _ _ p rp meta cs He). }
+  assert (E : flat_map (fun r => map (pick cs) (idxs_of p (sorted_pairs (rank_loads asg r)))) (seq 0 (length sizes))
+              = map (pick cs) (flat_map (fun r => idxs_of p (sorted_pairs (rank_loads asg r))) (seq 0 (length sizes)))).
+  { induction (seq 0 (length sizes)) as [|r l IH]; [reflexivity|]. cbn [flat_map]. rewrite map_app, IH. reflexivity. }
+  rewrite E. clear E.
+  assert (P1 : Permutation (flat_map (fun r => idxs_of p (sorted_pairs (rank_loads asg r))) (seq 0 (length sizes)))
+                 (map Z.of_nat (seq 0 (length cs)))).
+  { rewrite (perm_flat_map _ (fun r => map l_idx (filter (fun l => l_path l =? p) (rank_loads asg r)))).
+    2:{ intro r. apply idxs_sorted_perm. }
+    rewrite <- Hidx. rewrite flat_map_filter_concat.
+    apply Permutation_map. apply perm_filter.
+    fold (partition_result (length sizes) asg).
+    rewrite (rank_loads_perm (length sizes) asg (partition_ranks sizes items ord Hne)).
+    unfold asg. rewrite partition_units. exact (all_units_loads items ord HP). }
+  rewrite (Permutation_map (pick cs) P1). rewrite map_map. unfold pick.
+  rewrite (map_ext _ (fun i => nth i cs ([], -1))) by (intro i; rewrite Nat2Z.id; reflexivity).
+  rewrite map_nth_seq. apply Permutation_refl.
+Qed.
+
+(* ================================================================== the statements of props/C06.v *)
+Lemma assigned_exactly_once : forall (sizes : list Z) (items : list item) (ord : list load),
+  sizes <> [] -> Permutation ord (partitionables items) ->
+  let W := length sizes in
+  let asg := snd (partition sizes items ord) in
+  map snd asg = all_units items ord /\
+  Forall (fun a => (fst a < W)%nat) asg /\
+  (forall w : wunit -> Z,
+     sumZ (map (fun r => sumZ (map w (rank_units asg r))) (seq 0 W)) = sumZ (map w (all_units items ord))) /\
+  (forall u, NoDup (all_units items ord) -> In u (all_units items ord) ->
+     exists r, (r < W)%nat /\ In u (rank_units asg r) /\ forall r', In u (rank_units asg r') -> r' = r) /\
+  Permutation (concat (partition_result W asg)) (all_loads items).
+Proof.
+  intros sizes items ord Hne HP W asg.
+  pose proof (partition_units sizes items ord) as HU.
+  pose proof (partition_ranks sizes items ord Hne) as HR.
+  split; [exact HU|]. split; [exact HR|]. split; [|split].
+  - intro w. unfold asg, W. rewrite (bucket_sum w (length sizes) _ HR), HU. reflexivity.
+  - intros u ND Hin. exact (exactly_one_rank W asg (all_units items ord) u HU HR ND Hin).
+  - unfold asg, W. rewrite (rank_loads_perm (length sizes) _ HR), HU. exact (all_units_loads items ord HP).
+Qed.
+
+Lemma balance_two_pass : forall (sizes : list Z) (items : list item) (ord : list load),
+  sizes <> [] -> items_nonneg items -> Permutation ord (partitionables items) ->
+  let final := fst (partition sizes items ord) in
+  let asg := snd (partition sizes items ord) in
+  forall r s, last_size asg r = Some s ->
+  (exists u, In u (rank_units asg r) /\ u_size u = s) /\
+  forall q, (q < length sizes)%nat -> nth r final 0 <= nth q final 0 + s.
+Proof.
+  intros sizes items ord Hne Hit HP final asg r s Hl. split.
+  - exact (last_size_in asg r s Hl).
+  - exact (partition_balance sizes items ord Hne Hit HP r s Hl).
+Qed.
+
+(* ================================================================== consolidation does not raise on partitioned entries *)
+Lemma collect_total : forall kvs acc,
+  (forall p e e', In (p, e) acc -> In (p, e') kvs -> is_repl e' = true -> e = e') ->
+  (forall p e e', In (p, e) kvs -> In (p, e') kvs -> is_repl e = true -> is_repl e' = true -> e = e') ->
+  exists out, collect kvs acc = Some out.
+Proof.
+  induction kvs as [|[q x] r IH]; intros acc H1 H2; cbn [collect]; [eexists; reflexivity|].
+  assert (H2' : forall p e e', In (p, e) r -> In (p, e') r -> is_repl e = true -> is_repl e' = true -> e = e').
+  { intros p e e' Ha Hb. apply (H2 p e e'); right; assumption. }
+  destruct (is_repl x) eqn:Ex.
+  - destruct (lookup q acc) as [e'|] eqn:El.
+    + apply lookup_In in El. rewrite (H1 q e' x El (or_introl eq_refl) Ex), entry_eqb_refl.
+      apply IH; [|exact H2']. intros p e e'' Ha Hb. apply (H1 p e e'' Ha). right. exact Hb.
+    + apply IH; [|exact H2']. intros p e e'' Ha Hb Hr. apply in_app_or in Ha. destruct Ha as [Ha|[Ha|[]]].
+      * apply (H1 p e e'' Ha); [right; exact Hb | exact Hr].
+      * inversion Ha; subst. apply (H2 p e e''); [left; reflexivity | right; exact Hb | exact Ex | exact Hr].
+  - apply IH; [|exact H2']. intros p e e'' Ha Hb. apply (H1 p e e'' Ha). right. exact Hb.
+Qed.
+
+Lemma consolidate_no_error : forall ms,
+  keys_distinct ms ->
+  (forall m m' p e e', In m ms -> In m' ms -> In (p, e) m -> In (p, e') m' ->
+     is_repl e = true -> is_repl e' = true -> ~ In p (group_paths ms) -> e = e') ->
+  exists ms', consolidate ms = Some ms'.
+Proof.
+  intros ms KD HA. unfold consolidate, consolidate_with. rewrite step1_eq.
+  set (M := merged_entry ms). set (G := group_paths ms). set (D := foldD M G).
+  assert (Mrepl : forall p, is_repl (M p) = true) by (intro; reflexivity).
+  assert (Src : forall p e, In (p, e) (concat (map D ms)) ->
+            (In p G /\ e = M p) \/ (~ In p G /\ exists m, In m ms /\ In (p, e) m)).
+  { intros p e H. apply in_concat in H. destruct H as [l [Hl Hp]]. apply in_map_iff in Hl. destruct Hl as [m [E Hm]]. subst l.
+    assert (ND : NoDup (map fst (D m))).
+    { apply foldD_nodup. unfold keys_distinct in KD. rewrite Forall_forall in KD. exact (KD m Hm). }
+    pose proof (In_lookup p e (D m) ND Hp) as HL. unfold D in HL. rewrite foldD_lookup in HL by exact Mrepl.
+    destruct (memz p G) eqn:Eg.
+    - left. apply memz_In in Eg. split; [exact Eg | congruence].
+    - right. split; [intro Hg; apply memz_In in Hg; congruence|]. exists m. split; [exact Hm | apply lookup_In; exact HL]. }
+  destruct (collect_total (concat (map D ms)) []) as [reps Hr].
+  - intros p e e' [].
+  - intros p e e' Ha Hb Hra Hrb. destruct (Src p e Ha) as [[Hg He]|[Hng [m [Hm Hin]]]];
+      destruct (Src p e' Hb) as [[Hg' He']|[Hng' [m' [Hm' Hin']]]]; try congruence; try contradiction.
+    exact (HA m m' p e e' Hm Hm' Hin Hin' Hra Hrb Hng).
+  - rewrite Hr. eexists. reflexivity.
+Qed.
